@@ -613,7 +613,7 @@ def run_case(case):
             ok, res = call(op, lambda: Database('adopted', f['obj']))
             t = {'db': res, 'shadow': sh.Shadow(f['snap']['cols'], f['snap']['rows'], f['snap']['labels']), 'sp': f['sp'], 'used': set(used_names),
                  'removed': False, 'gaps_since_panel': False, 'origin': 'Database(frame returned by ' + f['origin'] + ')'}
-            frames.remove(f)
+            frames[:] = [g for g in frames if g is not f]
             tables.append(t)
             state.t = t
             rec.c('op_adopt')
